@@ -18,7 +18,7 @@ PARTIAL = ["pickling of waveforms is covered by C13"]
 
 
 def gen_cases(rng, tier):
-    n = 600 if tier == "quick" else 12000
+    n = 600 if tier == "quick" else 5000
     cases = W.scripted(rng) + W.readonly_cases(rng, 40 if tier == "quick" else 600)
     for _ in range(n):
         cases.append({"seed": rng.randrange(1 << 40), "n": rng.choice([4, 8, 14, 24]), "kinds": "ACD", "focus": {"irregular": 0.6}})
